@@ -60,6 +60,28 @@ def openArchive : M Archive := do
       let files ← readCentralLoop archiveOffset numberOfFiles
       pure { files, offset := archiveOffset, comment := footer.comment }
 
+/-- read.rs `ZipArchive::new`: the capacity handed to `Vec::with_capacity` / `HashMap::with_capacity` BEFORE any
+central header has been read: a declared count above the position of the end record is not trusted. -/
+def fileCapacity (numberOfFiles cdeStartPos : Nat) : Nat :=
+  if numberOfFiles > cdeStartPos then 0 else numberOfFiles
+
+open M in
+/-- `ZipArchive::new` together with the pre-allocation it requests (`openArchive` is its first component:
+`openArchive_eq_alloc` in `Tie/ReaderGlue.lean`).  This is the function the translated `ZipArchive::new` is tied to. -/
+def openArchiveAlloc : M (Archive × Nat) := do
+  let (footer, cdeStart) ← findAndParseEocd
+  if !footer.recordTooSmall && footer.diskNumber != footer.diskWithCd then
+    throw .unsupportedArchive
+  else do
+    let (archiveOffset, directoryStart, numberOfFiles) ← getDirectoryCounts footer cdeStart
+    let cap := fileCapacity numberOfFiles cdeStart
+    let r ← attempt (seek (.start directoryStart))
+    match r with
+    | .error _ => throw .invalidArchive
+    | .ok _ =>
+      let files ← readCentralLoop archiveOffset numberOfFiles
+      pure ({ files, offset := archiveOffset, comment := footer.comment }, cap)
+
 /-- `names_map.get(name)`: the map is filled in order, so a duplicate name maps to its last index. -/
 def Archive.indexOfName (a : Archive) (name : Bytes) : Option Nat :=
   let idxs := (List.range a.files.length).filter fun i =>
